@@ -585,3 +585,114 @@ theorem C12_template_match_program_computes_model (kcs : List KCall) (t : Nat) (
     solo (compile kcs) t m ((KLoc.mk aOut (iterAddr vOut k)).toLoc (kcs.map (·.call))) =
       C07.tmAt md f vT.shape tp (unravelI vA.shape k) :=
   templateMatch_solo_value kcs t md vA vOut vT aF aT aOut hk hne1 hne2 f hshape tp m hA hT hinj k hkn
+
+/-! ## non-vacuity -/
+
+namespace Mahotas.C12.Examples2
+open Mahotas.C12
+
+def memOf (calls : List Call) (content : List (KLoc × Val)) : Mem :=
+  ⟨fun l => ((content.find? (fun p => p.1.toLoc calls == l)).map (·.2)).getD 0⟩
+
+def v3 : C08.View := { base := 0, shape := [3], strides := [1] }
+def v4 : C08.View := { base := 0, shape := [4], strides := [1] }
+def outOf (calls : List Call) (m : Mem) (a n : Nat) : List Int :=
+  (List.range n).map fun (i : Nat) => m ((KLoc.mk a (i : Int)).toLoc calls)
+
+/-- a `dilate` call (uint8, 4 pixels, element `[1,1,0]`) and a `rank_filter` call (mode reflect, rank 1 of 3)
+reading the SAME input array 10; structuring elements 11 / 12; owned arrays 20, 21 / 30 … 33 -/
+def kd : Kernel2 := .dilate (dtU 8) v4 v4 v3 #[1, 1, 0]
+def kr : Kernel2 := .rank .reflect 1 v4 v4 v3 #[1, 1, 1]
+def kcs : List KCall := [kd.call ⟨[10, 11], [20, 21]⟩, kr.call ⟨[10, 12], [30, 31, 32, 33]⟩]
+def content : List (KLoc × Val) :=
+  [(⟨10,0⟩,5),(⟨10,1⟩,3),(⟨10,2⟩,7),(⟨10,3⟩,0),(⟨11,0⟩,1),(⟨11,1⟩,1),(⟨11,2⟩,0),(⟨12,0⟩,1),(⟨12,1⟩,1),(⟨12,2⟩,1)]
+
+/-- the hypothesis "disjoint outputs" of `C12_concurrent_calls_independent` holds for `kcs` -/
+theorem kcs_disjoint : DisjointOutputs (kcs.map (·.call)) := by
+  intro i j ci cj hi hj a ha hb
+  have hi' : i = 0 ∨ i = 1 := by
+    have := (List.getElem?_eq_some_iff.1 hi).1; simp [kcs] at this; omega
+  have hj' : j = 0 ∨ j = 1 := by
+    have := (List.getElem?_eq_some_iff.1 hj).1; simp [kcs] at this; omega
+  rcases hi' with rfl | rfl <;> rcases hj' with rfl | rfl <;> simp [kcs, Kernel2.call] at hi hj <;>
+    subst hi <;> subst hj <;> simp at ha hb <;> omega
+
+/-- … and the conclusion is not trivial: in the interleaving below (16 steps of the dilation, 43 of the rank
+filter) the dilate call ends with `C01.dilateModel` of `[5,3,7,0]` = `[6,8,8,0]` and the rank filter with
+`C07.rankAt` = `[5,5,3,0]`, each equal to its solo run; both programs are non-empty, every step is inside its
+call's footprint and every role inside the arity -/
+example :
+    let calls := kcs.map (·.call)
+    let m0 := memOf calls content
+    let sched := (List.range 43).flatMap fun _ => [1, 0]
+    outOf calls (run (compile kcs) sched (init m0)).mem 20 4 = [6, 8, 8, 0] ∧
+    outOf calls (run (compile kcs) sched (init m0)).mem 30 4 = [5, 5, 3, 0] ∧
+    outOf calls (solo (compile kcs) 0 m0) 20 4 = [6, 8, 8, 0] ∧
+    outOf calls (solo (compile kcs) 1 m0) 30 4 = [5, 5, 3, 0] ∧
+    (C01.dilateModel (dtU 8) ⟨[4], #[5, 3, 7, 0]⟩ (C01.support [3] #[1, 1, 0] false)).toList = [6, 8, 8, 0] ∧
+    (kcs.map fun kc => kc.prog.length) = [16, 43] ∧
+    (kcs.all fun kc => kc.prog.all (KStep.withinB kc.call)) = true ∧
+    (kd.raw.all (RStep.rolesOk kd.arity) && kr.raw.all (RStep.rolesOk kr.arity)) = true := by
+  decide +kernel
+
+/-- `template_match` (mode constant), `cooccurence` (2×2 image, direction `(0,1)`, 3×3 result matrix) and
+`borders`: the solo runs leave `C07.tmAt`, `C19.coocModel` and the border marks; roles inside the arities -/
+example :
+    let kt : Kernel2 := .templateMatch .constant false v4 v4 v3
+    let ct : Call := ⟨[10, 11], [20]⟩
+    outOf [ct] (solo (compile [kt.call ct]) 0 (memOf [ct] content)) 20 4 = [25, 69, 40, 37] ∧
+    (allPos [4]).map (C07.tmAt .constant ⟨[4], #[5, 3, 7, 0]⟩ [3] #[1, 1, 0]) = [25, 69, 40, 37] ∧
+    let v22 : C08.View := { base := 0, shape := [2, 2], strides := [2, 1] }
+    let v33 : C08.View := { base := 0, shape := [3, 3], strides := [3, 1] }
+    let mA : Int → Int := fun a => if a = 0 ∨ a = 2 then 1 else if a = 1 ∨ a = 3 then 2 else 0
+    let kc : Kernel2 := .cooccurence v22 v33 v33 #[0, 0, 0, 0, 0, 1, 0, 0, 0] mA
+    let cc : Call := ⟨[1, 2], [3, 4, 5]⟩
+    outOf [cc] (solo (compile [kc.call cc]) 0
+      (memOf [cc] ((List.range 4).map fun (a : Nat) => (⟨1, (a : Int)⟩, mA a)))) 3 9 = [0, 0, 0, 0, 0, 2, 0, 0, 0] ∧
+    (C19.coocModel 3 ⟨[2, 2], #[1, 2, 1, 2]⟩ [0, 1]).toList = [0, 0, 0, 0, 0, 2, 0, 0, 0] ∧
+    let mB : Int → Int := fun a => if a < 2 then 1 else 2
+    let kb : Kernel2 := .borders .constant v4 v4 v3 #[1, 1, 1] mB
+    outOf [cc] (solo (compile [kb.call cc]) 0
+      (memOf [cc] ((List.range 4).map fun (a : Nat) => (⟨1, (a : Int)⟩, mB a)))) 3 4 = [0, 1, 1, 0] ∧
+    (kt.raw.all (RStep.rolesOk kt.arity) && kc.raw.all (RStep.rolesOk kc.arity) &&
+      kb.raw.all (RStep.rolesOk kb.arity)) = true ∧
+    ((kc.call cc).prog.all (KStep.withinB cc) && (kb.call cc).prog.all (KStep.withinB cc)) = true := by
+  decide +kernel
+
+/-- `py_dt` on a 2×3 array with origins (104 steps: the run of `C05.pyDt` is reproduced, values and origins),
+`thin` on a 4×4 square in its zero frame (1540 steps: the run of `C15.thinCore` is reproduced), `zoom_shift`
+(order 1, shift 1/2, 3 output elements: 12 steps); all inside their footprints and arities -/
+example :
+    let f0 : Array Int := #[0, 100, 100, 100, 0, 100]
+    let kdist : Kernel2 := .distance true (f0, #[0, 1, 2, 3, 4, 5]) 2 3 0 3 1 0 3 1
+    let cdist : Call := ⟨[], [1, 2, 3, 4, 5, 6]⟩
+    let m := solo (compile [kdist.call cdist]) 0
+      (memOf [cdist] ((List.range 6).flatMap fun (a : Nat) => [(⟨1, (a : Int)⟩, f0.getD a 0), (⟨5, (a : Int)⟩, (a : Int))]))
+    (outOf [cdist] m 1 6, outOf [cdist] m 5 6) = ([0, 1, 2, 1, 0, 1], [0, 0, 4, 0, 4, 4]) ∧
+    C05.pyDt (f0, #[0, 1, 2, 3, 4, 5]) 2 3 0 3 1 0 3 1 = (#[0, 1, 2, 1, 0, 1], #[0, 0, 4, 0, 4, 4]) ∧
+    (kdist.call cdist).prog.length = 104 ∧
+    ((kdist.call cdist).prog.all (KStep.withinB cdist) && kdist.raw.all (RStep.rolesOk kdist.arity)) = true ∧
+    let kz : Kernel2 := .zoomShift Rat.floor 1 .nearest v4 v3 [some (1 / 2 : Rat)] [none]
+    let cz : Call := ⟨[1, 2, 3], [4, 5, 6]⟩
+    (kz.call cz).prog.length = 12 ∧
+    ((kz.call cz).prog.all (KStep.withinB cz) && kz.raw.all (RStep.rolesOk kz.arity)) = true := by
+  decide +kernel
+
+/-- a 2×2 block in its zero frame -/
+def bin : C15.Bin := C15.Bin.ofInts 4 4 [0,0,0,0, 0,1,1,0, 0,1,1,0, 0,0,0,0]
+
+/-- `thin` with `max_iter = 1` on the 2×2 block (482 steps: element table, one outer iteration of eight passes):
+the solo run reproduces `C15.thinCore` (one pixel is cleared); inside footprint and arity -/
+example :
+    let v44 : C08.View := { base := 0, shape := [4, 4], strides := [4, 1] }
+    let kth : Kernel2 := .thin v44 v44 bin 1
+    let cth : Call := ⟨[], [1, 2, 3, 4]⟩
+    (kth.call cth).prog.length = 482 ∧
+    ((kth.call cth).prog.all (KStep.withinB cth) && kth.raw.all (RStep.rolesOk kth.arity)) = true ∧
+    outOf [cth] (solo (compile [kth.call cth]) 0
+      (memOf [cth] ((List.range 16).map fun (a : Nat) => (⟨1, (a : Int)⟩, bin.toInts.getD a 0)))) 1 16 =
+      (C15.thinCore bin 1).toInts ∧
+    (C15.thinCore bin 1).toInts ≠ bin.toInts := by
+  decide +kernel
+
+end Mahotas.C12.Examples2
